@@ -79,10 +79,12 @@ PROFILES = {
     'equalreps': Profile('equalreps', [None, 1, 2, 3, 4, 5, 6],
                          variants={1: [1, 1.0, True, Decimal(1)], 2: [2, 2.0, Decimal(2)],
                                    3: [3, 3.0], 4: [4, Decimal(4)]}),
+    # -1 and -2 (and -1.0 / -2.0) have the SAME hash in CPython: distinct keys that collide in every hash table
+    'collide': Profile('collide', [None, -2, -1, 1, 2, 3, 4], variants={1: [-2, -2.0], 2: [-1, -1.0]}),
 }
 # profiles whose values are hashable and usable as dictionary keys (hash joins, lookups): all of them
 QUICK_PROFILES = ['ints', 'mixed']
-ALL_PROFILES = ['ints', 'mixed', 'text', 'compound', 'equalreps']
+ALL_PROFILES = ['ints', 'mixed', 'text', 'compound', 'equalreps', 'collide']
 
 
 def profile_for(i, names):
